@@ -2,6 +2,7 @@
 """E-small: every sentence of /repo/grammar.y with at most N tokens (IDENTIFIER in {x,y,_},
 INTEGER_LITERAL in {0,1}), enumerated from the grammar (memoised by nonterminal and length), one
 program per line, tokens separated by single spaces, TERMINATOR rendered as `;`."""
+import os
 import re, sys, functools
 sys.setrecursionlimit(10000)
 
@@ -12,7 +13,8 @@ LEX = {"ASTERISK": ["*"], "BOOLEAN": ["bool"], "COLON": [":"], "DOUBLE_EQUALS": 
        "PLUS": ["+"], "RIGHT_CURLY": ["}"], "RIGHT_PAREN": [")"], "SLASH": ["/"], "TERMINATOR": [";"], "THEN": ["then"],
        "THICK_ARROW": ["=>"], "THIN_ARROW": ["->"], "TRUE": ["true"], "TYPE": ["type"]}
 
-def load_grammar(path="/repo/grammar.y"):
+def load_grammar(path=None):
+    path = path or os.path.join(os.environ.get("GRAM_REPO", "/repo"), "grammar.y")
     src = open(path).read()
     src = re.sub(r"/\*.*?\*/", " ", src, flags=re.S)
     tokens = re.findall(r"%token\s+(\w+)", src)
